@@ -303,7 +303,7 @@ class Scratch:
         shutil.rmtree(self.root, ignore_errors=True)
 
 
-def run_impl(sc, spec, env=None, timeout=60, crash=None, yield_seed=None, binary="wfrun", gomaxprocs=None, kill_after=None, strace_kill=None, hooks_on=True):
+def run_impl(sc, spec, env=None, timeout=60, crash=None, yield_seed=None, binary="wfrun", gomaxprocs=None, kill_after=None, strace_kill=None, hooks_on=True, strace_fault=None):
     """one run of the real library in sc.work; returns observables"""
     specp = os.path.join(sc.root, "SPEC")
     open(specp, "w").write(spec.text(with_files=False))
@@ -334,6 +334,10 @@ def run_impl(sc, spec, env=None, timeout=60, crash=None, yield_seed=None, binary
         # fault injection without a hook: SIGKILL at the n-th write(2) to one file (strace -P <file> -e inject=write:signal=SIGKILL:when=n)
         path, when = strace_kill
         argv = ["strace", "-f", "-o", "/dev/null", "-P", os.path.join(sc.work, path), "-e", "trace=write", "-e", "inject=write:signal=SIGKILL:when=%d" % when] + argv
+    if strace_fault:
+        # fault injection without a hook: the n-th write(2) to one file fails with the given error (disk full, quota, I/O error)
+        path, err, when = strace_fault
+        argv = ["strace", "-f", "-o", "/dev/null", "-P", os.path.join(sc.work, path), "-e", "trace=write", "-e", "inject=write:error=%s:when=%d" % (err, when)] + argv
     p = subprocess.Popen(argv, cwd=sc.work, env=e, stdout=subprocess.PIPE, stderr=subprocess.PIPE,
                          start_new_session=True, text=True)
     timed_out = False
